@@ -2,6 +2,11 @@ import NavisModel.Model.Backends
 import NavisModel.Proofs.WfB
 import NavisModel.Model.CutVariants
 import NavisModel.Proofs.CutEquivLemmas
+import NavisModel.Proofs.StrahlerSweepFixLemmas
+import NavisModel.Proofs.BackendLemmas
+import NavisModel.Proofs.SegmentVariantsLemmas
+import NavisModel.Proofs.FlowVariantsLemmas
+import NavisModel.Proofs.ComponentLemmas
 /-!
 # C04 — results do not depend on the compute back-end
 
@@ -164,6 +169,180 @@ theorem cut_decompose_eq_cut (t : Table) (hw : WF t) (c : Int) : cutByDecompose 
           fun i => !(distalSet t c).contains i || i == c := funext fun i => by rw [hk i]
       rw [e1, e2]
 
+/-! ### Strahler index: the pure-Python sweep (igraph and networkx back-ends) versus the recurrence
+
+`Sweep.sweep` (`Model/StrahlerSweep.lean`) is `mmetrics.strahler_index` without navis-fastcore, as written:
+a work *set* seeded with the end nodes from which an arbitrary element is popped (`pick` is the choice
+oracle — any function of the loop state), the index chosen from the children's indices, the walk towards
+the root through every node that is neither negative nor a branch node (forking roots are branch nodes,
+non-forking roots are walked through, `>= 0` so node id 0 is an ordinary node), the readiness test at the
+node where the walk stopped, isolated roots never visited (default 1), then the fix-up of ignored twigs.
+`none` would be a `KeyError` / `IndexError` / non-termination.  `strahler` is the structural recurrence of
+C17 (`Props.C17.strahler_recurrence`), which is what navis-fastcore is compared with. -/
+
+/-- **The sweep computes the recurrence** — for every well-formed, correctly labelled forest (any
+labelling, row order, number of roots, isolated nodes, node id 0), both methods and EVERY pop order: the
+Python code raises no `KeyError`, terminates, and returns the structural Strahler index at every node. -/
+theorem strahler_sweep_eq_rec (t : Table) (hw : WF t) (hl : labelsOKB t = true) (g : Bool) (pick : Sweep.St → Nat) :
+    ∃ col, Sweep.sweep t g [] pick = some col ∧ ∀ i ∈ ids t, col i = strahler t g [] i :=
+  Sweep.sweep_eq hw hl g [] (by simp) pick
+
+/-- … hence its column obeys the recurrence at every node, roots (forking or not) included. -/
+theorem strahler_sweep_obeys_recurrence (t : Table) (hw : WF t) (hl : labelsOKB t = true) (g : Bool)
+    (pick : Sweep.St → Nat) :
+    ∃ col, Sweep.sweep t g [] pick = some col ∧
+      ∀ i ∈ ids t, col i = strahlerRule g ((children t i).map col) := by
+  obtain ⟨col, h1, h2⟩ := strahler_sweep_eq_rec t hw hl g pick
+  refine ⟨col, h1, fun i hi => ?_⟩
+  have e : strahler t g [] = strahlerRaw t g [] (t.length + 1) := funext (Flow.strahler_nil t g)
+  rw [h2 i hi, e, Flow.strahlerRaw_rec_nil hw g hi]
+  congr 1
+  apply List.map_congr_left
+  intro c hc
+  rw [h2 c (Flow.child_facts hw hi hc).1, e]
+
+/-- **The result does not depend on the order in which the work set is popped** (Python pops an arbitrary
+element of a `set`). -/
+theorem strahler_sweep_order_independent (t : Table) (hw : WF t) (hl : labelsOKB t = true) (g : Bool)
+    (pick pick' : Sweep.St → Nat) :
+    ∃ col col', Sweep.sweep t g [] pick = some col ∧ Sweep.sweep t g [] pick' = some col' ∧
+      ∀ i ∈ ids t, col i = col' i := by
+  obtain ⟨col, h1, h2⟩ := strahler_sweep_eq_rec t hw hl g pick
+  obtain ⟨col', h1', h2'⟩ := strahler_sweep_eq_rec t hw hl g pick'
+  exact ⟨col, col', h1, h1', fun i hi => by rw [h2 i hi, h2' i hi]⟩
+
+/-- The dictionary before the fix-up is the raw recurrence with the ignore list (an ignored end node
+contributes 0). -/
+theorem strahler_sweep_raw (t : Table) (hw : WF t) (hl : labelsOKB t = true) (g : Bool) (ign : List Int)
+    (hign : ∀ l ∈ ign, l ∈ ids t → l ∈ Sweep.endNodes t) (pick : Sweep.St → Nat) :
+    ∃ si, Sweep.sweepRaw t g ign pick = some si ∧
+      ∀ i ∈ ids t, Sweep.siGetD si i = strahlerRaw t g ign (t.length + 1) i :=
+  Sweep.sweepRaw_eq hw hl g ign hign pick
+
+/-- With `to_ignore`: sweep + "fix branches that were ignored" is the model's final index (ignored twigs
+take the index of the branch they hang on).
+`_partial`: `to_ignore` is restricted to end nodes (typed `end`; ids that are not in the table are
+harmless).  The docstring also allows the first node of an *inner* branch; the Python sweep then zeroes
+that whole branch, which the C17 model (`strahler`, ignoring twigs only) does not describe — not covered. -/
+theorem strahler_sweep_ignore_partial (t : Table) (hw : WF t) (hl : labelsOKB t = true) (g : Bool) (ign : List Int)
+    (hign : ∀ l ∈ ign, l ∈ ids t → l ∈ Sweep.endNodes t) (pick : Sweep.St → Nat) :
+    ∃ col, Sweep.sweep t g ign pick = some col ∧ ∀ i ∈ ids t, col i = strahler t g ign i :=
+  Sweep.sweep_eq hw hl g ign hign pick
+
+/-- With `min_twig_size = k`: the list the Python code appends to `to_ignore` is the model's `shortTwigs`,
+and the result is the model's index for `ign ++ shortTwigs t k`. -/
+theorem strahler_sweep_min_twig (t : Table) (hw : WF t) (hl : labelsOKB t = true) (g : Bool) (ign : List Int) (k : Nat)
+    (hk : k ≠ 0) (hign : ∀ l ∈ ign, l ∈ ids t → l ∈ Sweep.endNodes t) (pick : Sweep.St → Nat) :
+    ∃ col, Sweep.sweep t g (Sweep.ignoreList t ign k) pick = some col ∧
+      ∀ i ∈ ids t, col i = strahler t g (ign ++ shortTwigs t k) i := by
+  obtain ⟨col, h1, h2⟩ := Sweep.sweep_eq hw hl g _ (Sweep.ignoreList_ends ign k hign) pick
+  refine ⟨col, h1, fun i hi => ?_⟩
+  rw [h2 i hi, Sweep.ignoreList_eq_shortTwigs hl ign k, if_neg hk]
+
+/-! ### the two Python segment builders (`Model/SegmentVariants.lean`)
+
+The igraph variants work on ROW POSITIONS of the graph built by `neuron2igraph` (`idxEdges`; `end` / `branch` /
+`root` from in- and out-degrees; positions translated back through the `node_id` attribute at the end), the
+networkx variants on NODE IDS of the graph built by `neuron2nx` (`idEdges`; seeds / stops from the `type`
+column).  `none` would be an `IndexError` / `KeyError` / `NetworkXError` / non-termination. -/
+
+/-- `_break_segments`, networkx variant, is exactly the C05 model `smallSegments` (same list, same order). -/
+theorem break_segments_nx_eq_model (t : Table) (hw : WF t) (hl : labelsOKB t = true) :
+    SegVar.breakNx t = some (smallSegments t) := SegVar.breakNx_eq t hw hl
+
+/-- `_break_segments`, igraph variant: whatever order Python iterates the seed *set* in, the result is a
+permutation of the same small segments. -/
+theorem break_segments_igraph_perm_model (t : Table) (hw : WF t) (hl : labelsOKB t = true) (seeds : List Nat)
+    (hs : seeds.Perm (SegVar.seedsIdx t)) :
+    ∃ segs, SegVar.breakIgraphFrom t seeds = some segs ∧ segs.Perm (smallSegments t) :=
+  SegVar.breakIgraphFrom_perm t hw hl seeds hs
+
+/-- **The two variants of `_break_segments` agree** (up to the order of the segments), and the networkx
+list passes the C05 checker. -/
+theorem break_segments_variants_agree (t : Table) (hw : WF t) (hl : labelsOKB t = true) :
+    ∃ a b, SegVar.breakIgraph t = some a ∧ SegVar.breakNx t = some b ∧ a.Perm b ∧ smallSegmentsOKB t b = true := by
+  obtain ⟨a, h1, h2⟩ := SegVar.breakIgraphFrom_perm t hw hl (SegVar.seedsIdx t) (List.Perm.refl _)
+  exact ⟨a, smallSegments t, h1, SegVar.breakNx_eq t hw hl, h2, smallSegments_ok hw⟩
+
+/-- **The two variants of `_generate_segments` return the same list** — same segments in the same order,
+exact ties included (both start from the same stably sorted leafs; walking positions and translating
+back is walking ids) — for every well-formed forest and every edge-length function. -/
+theorem generate_segments_igraph_eq_nx (t : Table) (hw : WF t) (len : Int → Int → Nat) :
+    SegVar.genIgraph t len = SegVar.genNx t len := SegVar.genIgraph_eq_genNx t hw len
+
+/-- … and that list passes the C05 checker (child→parent paths partitioning the edges, longest first,
+isolated nodes as single-node segments) — so do both variants. -/
+theorem generate_segments_pass_checker (t : Table) (hw : WF t) (hl : labelsOKB t = true) (len : Int → Int → Nat) :
+    ∃ segs, SegVar.genNx t len = some segs ∧ SegVar.genIgraph t len = some segs ∧ segmentsOKB t len segs = true := by
+  obtain ⟨segs, h1, h2⟩ := SegVar.genNx_ok t hw hl len
+  exact ⟨segs, h1, by rw [SegVar.genIgraph_eq_genNx t hw len]; exact h1, h2⟩
+
+/-! ### synapse flow centrality: the Python path versus the formula at every node
+
+Without navis-fastcore, `synapse_flow_centrality` evaluates the mode's formula only at branch points, roots
+and connector nodes, then lets every other node of a small segment inherit the value of the node distal to
+it (a connector-free leaf seeds 0), then applies the fork rule (`Model/FlowVariants.lean`, as written).
+navis-fastcore evaluates the formula at every node (`Flow.sfc`, what C17 proves to count paths). -/
+
+/-- **The Python path computes `Flow.sfc`** — every well-formed, correctly labelled forest (any number of
+roots, isolated nodes, connectors anywhere, several per node, none of one kind), every mode, and every
+order in which `x.small_segments` lists the small segments (igraph: a set's order): no `KeyError`, same
+column. -/
+theorem synapse_flow_python_eq_formula (t : Table) (hw : WF t) (hl : labelsOKB t = true) (m : Flow.Mode)
+    (pre post : List Int) (segs : List (List Int)) (hperm : segs.Perm (smallSegments t)) :
+    ∃ col, FlowVar.sfcPython t m pre post segs = some col ∧ ∀ i ∈ ids t, col i = Flow.sfc t true m pre post i :=
+  FlowVar.sfcPython_eq hw hl m pre post segs hperm
+
+/-- The two facts the propagation rests on: a connector-free node with a single child has its child's
+formula value (the distal counts and the per-tree totals do not change), a connector-free leaf has 0. -/
+theorem synapse_flow_constant_on_connector_free_stretch (t : Table) (hw : WF t) (m : Flow.Mode) (pre post : List Int) :
+    (∀ p c, children t p = [c] → p ∈ ids t → p ∉ pre → p ∉ post →
+      Flow.sfcRaw t true m pre post p = Flow.sfcRaw t true m pre post c) ∧
+    (∀ e, children t e = [] → e ∉ pre → e ∉ post → Flow.sfcRaw t true m pre post e = 0) :=
+  ⟨fun _ _ hch hp h1 h2 => FlowVar.sfcRaw_single_child hw hch hp m pre post h1 h2,
+   fun _ hch h1 h2 => FlowVar.sfcRaw_leaf hw hch m pre post h1 h2⟩
+
+/-! ### connected components: root labels (fastcore) versus undirected closure (igraph / networkx) -/
+
+/-- **The undirected component of a node is the set of nodes with the same root** — every well-formed
+forest, every node: `|edges| + 1` sweeps of the closure reach exactly the rows whose root path ends in the
+same root. -/
+theorem components_closure_iff_same_root (t : Table) (hw : WF t) (i : Int) (hi : i ∈ ids t) (j : Int) :
+    j ∈ componentClosure t i ↔ j ∈ ids t ∧ rootOf t j = rootOf t i :=
+  Navis.CutEquiv.closure_iff_same_root hw hi j
+
+/-- Hence every group navis forms from fastcore's root labels is, as a set, the igraph / networkx component
+of each of its members. -/
+theorem components_by_root_eq_closure (t : Table) (hw : WF t) (c : List Int) (hc : c ∈ componentsByRoot t)
+    (i : Int) (hi : i ∈ c) (j : Int) : j ∈ c ↔ j ∈ componentClosure t i := by
+  unfold componentsByRoot at hc
+  obtain ⟨r, _, rfl⟩ := List.mem_map.mp hc
+  simp only [List.mem_filter, beq_iff_eq] at hi ⊢
+  rw [components_closure_iff_same_root t hw i hi.1 j, hi.2]
+
+/-! ### smaller glue that differs between the back-ends -/
+
+/-- `_classify_nodes_old` on networkx degrees (`g.degree` = in + out: ends have degree 1, branch points
+degree > 2) agrees with `classify_nodes` (and so with the igraph in-degree variant above). -/
+theorem classify_old_nx_eq_new (t : Table) (n : Node) : classifyOldNxNode t n = classifyNode t n :=
+  classifyOldNx_eq t n
+
+/-- `geodesic_matrix(from_=…)`: fastcore labels (and orders) the rows by the sorted unique `from_`, the
+igraph / networkx branches by node-table order — the same rows under the same labels, only permuted, for
+every table with unique ids and every `from_` inside the table (anything else raises on all back-ends). -/
+theorem geodesic_from_rows_agree (t : Table) (hw : WF t) (len : Int → Int → Nat) (directed : Bool) (limit : Option Nat)
+    (from_ : List Int) (hsub : ∀ i ∈ from_, i ∈ ids t) :
+    (geoLabelled t len directed limit (geoRowLabelsPython t from_)).Perm
+      (geoLabelled t len directed limit (geoRowLabelsFastcore t from_)) ∧
+    (geoRowLabelsFastcore t from_).Nodup ∧ (geoRowLabelsFastcore t from_).Pairwise (· ≤ ·) ∧
+    ∀ a, a ∈ geoRowLabelsFastcore t from_ ↔ a ∈ from_ :=
+  ⟨(geoRowLabels_perm hw.1 from_ hsub).map _, npUnique_nodup _, npUnique_sorted _, mem_npUnique _⟩
+
+/-- `reroot_skeleton`: the igraph branch (shortest paths from the new root to ALL roots, first non-empty
+one) and the networkx branch (follow the parents) reverse the same path — any number of roots, any node. -/
+theorem reroot_path_igraph_eq_nx (t : Table) (hw : WF t) (r : Int) (hr : r ∈ ids t) :
+    rerootPathIgraph t r = some (rerootPathNx t r) := rerootPath_igraph_eq_nx hw hr
+
 /-! ### Non-vacuity -/
 def ex : Table := [⟨7, 3, 0, 0, 0, .end_⟩, ⟨3, 9, 3, 0, 0, .branch⟩, ⟨9, -1, 6, 0, 0, .root⟩, ⟨4, 3, 3, 4, 0, .end_⟩]
 example : wfB ex = true ∧ labelsOKB ex = true := by decide
@@ -182,5 +361,46 @@ example : (cutByDecompose ex 3).map (fun r => (ids r.1, ids r.2)) = some ([7, 3,
     cutByDecompose ex 3 = cut ex 3 ∧ cutByDecompose ex 9 = none := by decide
 /-- Without the deletion the component is the whole tree — the deleted edge is what separates. -/
 example : componentOf (edges ex) ((edges ex).length + 1) 3 = [3, 7, 9, 4] := by decide
+
+/-- Two trees, node id 0, a forking root (0: children 5, 8), a non-forking root (2), rows out of order. -/
+def exS : Table := [⟨5, 0, 0, 0, 0, .branch⟩, ⟨0, -1, 0, 0, 0, .root⟩, ⟨8, 0, 0, 0, 0, .end_⟩, ⟨3, 5, 0, 0, 0, .end_⟩,
+  ⟨4, 5, 0, 0, 0, .slab⟩, ⟨6, 4, 0, 0, 0, .end_⟩, ⟨2, -1, 0, 0, 0, .root⟩, ⟨7, 2, 0, 0, 0, .end_⟩, ⟨9, -1, 0, 0, 0, .root⟩]
+example : wfB exS = true ∧ labelsOKB exS = true := by decide
+example : Sweep.endNodes exS = [8, 3, 6, 7] ∧ Sweep.branchNodes exS = [5, 0] := by decide
+/-- three pop orders, one column: forking root 0 gets 2 (children 2 and 1), root 2 the index of its chain,
+isolated root 9 the default 1 -/
+example : (Sweep.sweep exS false [] Sweep.pickFirst).map (fun c => (ids exS).map c) = some [2, 2, 1, 1, 1, 1, 1, 1, 1] ∧
+    (Sweep.sweep exS false [] Sweep.pickLast).map (fun c => (ids exS).map c) = some [2, 2, 1, 1, 1, 1, 1, 1, 1] ∧
+    (Sweep.sweep exS false [] (Sweep.pickMix 3)).map (fun c => (ids exS).map c) = some [2, 2, 1, 1, 1, 1, 1, 1, 1] ∧
+    (ids exS).map (strahler exS false []) = [2, 2, 1, 1, 1, 1, 1, 1, 1] := by decide
+example : (Sweep.sweep exS true [] Sweep.pickLast).map (fun c => (ids exS).map c) = some [2, 3, 1, 1, 1, 1, 1, 1, 1] := by decide
+/-- ignored twig 3 takes the index of fork 5, which no longer sees it; `min_twig_size = 3` ignores the
+two-node twigs 8 and 3 (and 7, whose chain ends at the non-forking root 2: everything there becomes 0) -/
+example : (Sweep.sweep exS false [3] Sweep.pickFirst).map (fun c => (ids exS).map c) = some [1, 2, 1, 1, 1, 1, 1, 1, 1] ∧
+    (ids exS).map (strahler exS false [3]) = [1, 2, 1, 1, 1, 1, 1, 1, 1] ∧
+    Sweep.ignoreList exS [] 3 = [8, 3, 7] ∧
+    (Sweep.sweep exS false (Sweep.ignoreList exS [] 3) Sweep.pickLast).map (fun c => (ids exS).map c) =
+      some [1, 1, 1, 1, 1, 1, 0, 0, 1] := by decide
+/-- `ex`: the igraph seed order (branch points first) differs from the table order of the networkx variant;
+in `exS` the leafs 8 and 7 are both at depth 1 and keep their table order (stable sort); the three segments of
+length 1 come in decreasing lexicographic order, the isolated node last. -/
+example : SegVar.breakIgraph ex = some [[3, 9], [7, 3], [4, 3]] ∧ SegVar.breakNx ex = some [[7, 3], [3, 9], [4, 3]] ∧
+    smallSegments ex = [[7, 3], [3, 9], [4, 3]] := by decide
+example : SegVar.genIgraph exS (fun _ _ => 1) = some [[6, 4, 5, 0], [8, 0], [7, 2], [3, 5], [9]] ∧
+    SegVar.genNx exS (fun _ _ => 1) = some [[6, 4, 5, 0], [8, 0], [7, 2], [3, 5], [9]] ∧
+    SegVar.sortedEnds exS (fun _ _ => 1) = [6, 3, 8, 7] := by decide
+/-- `exS` with presynapses on 6, 6, 3 and postsynapses on 8, 7, 0: formula at the calc nodes 5, 0, 2, 9 and the
+connector nodes, slab 4 inherits from 6; fork 5 takes the larger child. -/
+example : (FlowVar.sfcPython exS .centrifugal [6, 6, 3] [8, 7, 0] (smallSegments exS)).map (fun c => (ids exS).map c) =
+      some ((ids exS).map (Flow.sfc exS true .centrifugal [6, 6, 3] [8, 7, 0])) ∧
+    (ids exS).map (Flow.sfc exS true .centrifugal [6, 6, 3] [8, 7, 0]) = [4, 0, 0, 2, 4, 4, 0, 0, 0] ∧
+    FlowVar.calcNodes exS [6, 6, 3] [8, 7, 0] = [5, 0, 8, 3, 6, 2, 7, 9] := by decide
+/-- two trees (one rooted at node id 0) and an isolated node -/
+def exC : Table := [⟨2, 1, 0, 0, 0, .end_⟩, ⟨1, -1, 0, 0, 0, .root⟩, ⟨0, -1, 0, 0, 0, .root⟩, ⟨7, 0, 0, 0, 0, .end_⟩, ⟨5, -1, 0, 0, 0, .root⟩]
+example : wfB exC = true := by decide
+example : componentsByRoot exC = [[0, 7], [2, 1], [5]] ∧ componentsByClosure exC = [[2, 1], [0, 7], [5]] := by decide
+example : geoRowLabelsPython ex [4, 7, 4] = [7, 4] ∧ geoRowLabelsFastcore ex [4, 7, 4] = [4, 7] := by decide
+example : rerootPathIgraph exS 6 = some [6, 4, 5, 0] ∧ rerootPathIgraph exS 7 = some [7, 2] ∧
+    rerootPathIgraph exS 9 = some [9] := by decide
 
 end Navis.Props.C04
